@@ -24,6 +24,10 @@ Line-protocol front end of the C05 model (requests after the leading `C05` field
                                       | S <k> <perm> (<item> <o|b> <hex>)*k
   headerValues <perm> <name hex> <khex:vhex,…>         → the values filed under the canonical header name (hex, comma-separated)
   walkOps                                              → the operation names of the failing-element stream, comma-separated
+  findMount <impl|last> <perm> <path hex> <keyhex:targethex,…> → some <position of the serving mount in the request> <relative path hex> | none,
+                                                          then targetsAreKeys; the mounts map visited in order <perm>; `last` = the forbidden variant
+  hashKey <item>                                       → <type> <IntValue> <StrValue hex> <float position> <is NaN>: HashKey() of the value (HV.key)
+  listing <perm> <item,…>                              → positions (in the request) of the members in the order the set lists them (setListing on values)
   item := i:<int> | s:<hex> | t | f | n | d:<position of the float among the non-NaN floats> | D (NaN) | b:<byte> | y:<hex bytes>
 
 Program tokens (prefix notation, separated by single spaces):
@@ -132,19 +136,35 @@ def constText : Const → String
 
 def orDash (s : String) : String := if s.isEmpty then "-" else s
 
-def parseKey (s : String) : Option HKey :=
-  if s.startsWith "i:" then (s.drop 2).toString.toInt?.map fun n => ⟨"int", n, "", 0, false⟩
+/-- an item token as the hashable VALUE it denotes -/
+def parseVal (s : String) : Option HV :=
+  if s.startsWith "i:" then (s.drop 2).toString.toInt?.map HV.int
   else if s.startsWith "s:" then
-    (if s = "s:-" then some "" else hexStr (s.drop 2).toString).map fun x => ⟨"string", 0, x, 0, false⟩
+    (if s = "s:-" then some "" else hexStr (s.drop 2).toString).map HV.str
   else if s.startsWith "y:" then
-    (if s = "y:-" then some "" else hexStr (s.drop 2).toString).map fun x => ⟨"byte_slice", 0, x, 0, false⟩
-  else if s.startsWith "b:" then (s.drop 2).toString.toInt?.map fun n => ⟨"byte", n, "", 0, false⟩
-  else if s.startsWith "d:" then (s.drop 2).toString.toInt?.map fun n => ⟨"float", 0, "", n, false⟩
-  else if s = "D" then some ⟨"float", 0, "", 0, true⟩
-  else if s = "t" then some ⟨"bool", 1, "", 0, false⟩
-  else if s = "f" then some ⟨"bool", 0, "", 0, false⟩
-  else if s = "n" then some ⟨"nil", 0, "", 0, false⟩
+    (if s = "y:-" then some "" else hexStr (s.drop 2).toString).map HV.bytes
+  else if s.startsWith "b:" then (s.drop 2).toString.toNat?.map HV.byte
+  else if s.startsWith "d:" then (s.drop 2).toString.toInt?.map HV.flt
+  else if s = "D" then some .nan
+  else if s = "t" then some (.bool true)
+  else if s = "f" then some (.bool false)
+  else if s = "n" then some .nil
   else none
+
+/-- the hash key of an item: `HashKey()` of the value it denotes (`HV.key`) -/
+def parseKey (s : String) : Option HKey := (parseVal s).map HV.key
+
+def parseVals (s : String) : Option (List HV) :=
+  if s = "-" then some [] else (s.splitOn ",").mapM parseVal
+
+def parseMounts (s : String) : Option (List MountEnt) :=
+  let parse (i : Nat) (e : String) : Option MountEnt :=
+    match e.splitOn ":" with
+    | [k, t] => do pure ⟨← fromHex k, ← fromHex t, i⟩
+    | _ => none
+  if s = "-" then some [] else
+    let es := s.splitOn ","
+    ((List.range es.length).zip es).mapM fun (i, e) => parse i e
 
 def parseKeys (s : String) : Option (List HKey) :=
   if s = "-" then some [] else (s.splitOn ",").mapM parseKey
@@ -306,6 +326,26 @@ def handle : List String → String
       orDash (",".intercalate ((headerValues canonHeader (canonHeader n) (applyPerm (parsePerm perm) l)).map hexOut))
     | _, _ => "error\tbad-hex"
   | ["walkOps"] => ",".intercalate (walkOps.map (·.1))
+  | ["findMount", mode, perm, path, ms] =>
+    match fromHex path, parseMounts ms with
+    | some p, some l =>
+      let vis := applyPerm (parsePerm perm) l
+      let r := if mode = "last" then findMountLast p vis else findMount p vis
+      (match r with
+        | some (id, rel) => s!"some {id} {toHexField rel}"
+        | none => "none") ++ "\t" ++ toString (targetsAreKeys l)
+    | _, _ => "error\tbad-hex"
+  | ["hashKey", item] =>
+    match parseVal item with
+    | some v =>
+      let k := v.key
+      s!"{k.ty} {k.int} {hexOut k.str} {k.flt} {k.nan}"
+    | none => "error\tbad-item"
+  | ["listing", perm, items] =>
+    match parseVals items with
+    | some vs =>
+      orDash (".".intercalate ((setListing (applyPerm (parsePerm perm) vs)).map fun v => toString (vs.findIdx (· == v))))
+    | none => "error\tbad-item"
   | ["firstFailure", perm, es] =>
     let l := if es = "-" then [] else es.splitOn ","
     match firstFailure (fun (s : String) => if s = "ok" then none else some s) (applyPerm (parsePerm perm) l) with
